@@ -30,8 +30,9 @@ Theorem C19_noop_save_status : forall v dirty,
 Proof. exact noop_save_status. Qed.
 Print Assumptions C19_noop_save_status.
 
-(* The engine's change flags are never reset after a save (C06): a save that changes nothing after
-   an earlier creation/modification is reported Modified and emits.  Open finding owned by C06. *)
+(* The engine's change flags were never reset after a save at the pinned commit (C06): a save that
+   changes nothing after an earlier creation/modification was reported Modified and emitted.
+   Repaired by the C06 fix (ResetChangeFlags); kept as documentation. *)
 Theorem C19_one_event_per_change_refuted_sticky :
   length (recv_of 0 (hrun true sticky_witness)) = 2%nat /\
   save_status false (Some 1) true 1 = StSame.
@@ -72,3 +73,13 @@ Theorem C19_sends_not_concurrent_refuted_without_mutex :
   exists tr, option_map (fun s => (nsending s, over s)) (drun false d_init tr) = Some (2%nat, true).
 Proof. exact sends_not_concurrent_refuted_without_mutex. Qed.
 Print Assumptions C19_sends_not_concurrent_refuted_without_mutex.
+
+(* Open finding: SubscribeToSwampEvents is atomic in the window machine above ([HSub]); at the
+   granularity of its sync.Map operations two clients that subscribe at the same time to a swamp
+   nobody subscribed to before can both succeed while only one is registered (the second Store of a
+   fresh map overwrites the first): the other client receives nothing.  LoadOrStore would repair it. *)
+Theorem C19_window_refuted_for_concurrent_first_subscribers :
+  exists tr, s_map (srun tr) = Some [2%N] /\
+             tr = [SLoad 1; SLoad 2; SStore 1; SStore 2].
+Proof. exact first_subscribers_race_loses_one. Qed.
+Print Assumptions C19_window_refuted_for_concurrent_first_subscribers.
